@@ -55,7 +55,8 @@ def run_cases(ctx, cases: Iterable[dict], *, sample_every: int = 1) -> None:
         canon = (case.get("version"), case.get("metric", True), tuple(map(repr, case["steps"])),
                  tuple(case.get("faults") or ()), tuple(case.get("fail19") or ()), case.get("tz"),
                  tuple(case.get("fail_reply_types") or ()), case.get("fail_reply_every"), case.get("fault_class"),
-                 repr(sorted((case.get("config_extra") or {}).items())))
+                 repr(sorted((case.get("config_extra") or {}).items())), bool(case.get("neighbour")),
+                 repr(case.get("session_file")))
         ctx.case(canon, nontrivial=is_nontrivial(case, ls), sample=case if len(case["steps"]) <= 12 else
                  dict(case, steps=case["steps"][:12] + [["...", len(case["steps"]) - 12, "more steps"]]))
         for m in mismatches:
